@@ -112,8 +112,10 @@ class Node(fm.TimeComponent):
         for i in range(self.nin):
             d = self.inputs[f"in{i}"].pull_data(t)
             self.ctx.received.setdefault((self._name, f"in{i}"), []).append((hrs(t), _scalar(d), str(d.units)))
-        for j in range(self.nout):
-            self.outputs[f"out{j}"].push_data(self.value(j, self.k), t)
+        every = self.spec.get("publish_every", 1)
+        if self.k % every == 0:  # sparse publishers leave Output.time behind the component time in between
+            for j in range(self.nout):
+                self.outputs[f"out{j}"].push_data(self.value(j, self.k), t)
 
     def _finalize(self):
         self.calls.append("F")
